@@ -46,18 +46,23 @@ fn splitmix(x: &mut u64) -> u64 {
     z ^ (z >> 31)
 }
 
-pub fn replay(input: &str, outdir: &str, nm: usize, seed: u64, sample: usize, names: Vec<String>, want_ser: bool) -> Value {
-    let f = std::fs::File::open(input).expect("open input");
-    let mut lines: Vec<Value> = vec![];
-    for l in std::io::BufReader::new(f).lines() {
-        let l = l.unwrap();
-        if l.trim().is_empty() {
-            continue;
-        }
-        if let Ok(v) = serde_json::from_str::<Value>(&l) {
-            lines.push(v);
+pub fn replay(input: &str, fixfile: Option<&str>, outdir: &str, nm: usize, seed: u64, sample: usize, names: Vec<String>, want_ser: bool) -> Value {
+    let text = std::fs::read_to_string(input).expect("read input");
+    let raw: Vec<&str> = text.lines().filter(|l| !l.trim().is_empty()).collect();
+    let nthreads = std::thread::available_parallelism().map(|n| n.get()).unwrap_or(4).min(16);
+    let mut lines: Vec<Value> = Vec::with_capacity(raw.len());
+    {
+        let chunk = (raw.len() / nthreads).max(1);
+        let parts: Vec<Vec<Value>> = std::thread::scope(|sc| {
+            let hs: Vec<_> = raw.chunks(chunk).map(|c| sc.spawn(move || c.iter().filter_map(|l| serde_json::from_str::<Value>(l).ok()).collect::<Vec<Value>>())).collect();
+            hs.into_iter().map(|h| h.join().unwrap()).collect()
+        });
+        for p in parts {
+            lines.extend(p);
         }
     }
+    drop(raw);
+    let fixv: Vec<Value> = fixfile.map(|p| serde_json::from_str(&std::fs::read_to_string(p).expect("fix file")).expect("fix json")).unwrap_or_default();
     let total = lines.len();
     let maxd = lines.iter().map(|l| l["h"].as_array().map(|a| a.len()).unwrap_or(0)).max().unwrap_or(0);
     let tainted: Mutex<HashSet<String>> = Mutex::new(HashSet::new());
@@ -66,77 +71,107 @@ pub fn replay(input: &str, outdir: &str, nm: usize, seed: u64, sample: usize, na
     let counts = Mutex::new((0usize, 0usize, 0usize, 0usize)); // matched, mismatched, skipped, resmismatch
     let opcount: Mutex<std::collections::BTreeMap<String, usize>> = Mutex::new(Default::default());
     let sample_every = if sample == 0 { usize::MAX } else { (total / sample).max(1) };
-    let nthreads = std::thread::available_parallelism().map(|n| n.get()).unwrap_or(4).min(16);
     for d in 0..=maxd {
-        let level: Vec<(usize, &Value)> = lines.iter().enumerate().filter(|(_, l)| l["h"].as_array().map(|a| a.len()).unwrap_or(0) == d).collect();
-        let chunks: Vec<Vec<(usize, &Value)>> = (0..nthreads).map(|t| level.iter().skip(t).step_by(nthreads).cloned().collect()).collect();
+        // group the transitions of this depth by their history: the world is built once per history and reused
+        // as long as the executed steps have no observable effect (most enumerated calls fail)
+        let mut groups: std::collections::HashMap<String, Vec<usize>> = std::collections::HashMap::new();
+        for (i, l) in lines.iter().enumerate() {
+            if l["h"].as_array().map(|a| a.len()).unwrap_or(0) == d {
+                groups.entry(l["h"].to_string()).or_default().push(i);
+            }
+        }
+        let mut glist: Vec<Vec<usize>> = groups.into_values().collect();
+        glist.sort_by_key(|g| g[0]);
+        let next = std::sync::atomic::AtomicUsize::new(0);
         let newtaint: Mutex<Vec<String>> = Mutex::new(vec![]);
         std::thread::scope(|sc| {
-            for ch in &chunks {
-                let (tainted, mism, samp, counts, newtaint, opcount, names) = (&tainted, &mism, &samp, &counts, &newtaint, &opcount, &names);
-                sc.spawn(move || {
-                    for (li, l) in ch {
-                        let empty = vec![];
-                        let fix = l["fix"].as_array().unwrap_or(&empty);
-                        let h = l["h"].as_array().unwrap_or(&empty);
-                        // skip histories with a tainted prefix
-                        let mut skip = false;
-                        {
-                            let t = tainted.lock().unwrap();
-                            if !t.is_empty() {
-                                for k in 1..=h.len() {
-                                    if t.contains(&Value::Array(h[..k].to_vec()).to_string()) {
-                                        skip = true;
-                                        break;
-                                    }
+            for _ in 0..nthreads {
+                let (tainted, mism, samp, counts, newtaint, opcount, names, fixv, glist, next, lines) =
+                    (&tainted, &mism, &samp, &counts, &newtaint, &opcount, &names, &fixv, &glist, &next, &lines);
+                sc.spawn(move || loop {
+                    let gi = next.fetch_add(1, std::sync::atomic::Ordering::Relaxed);
+                    if gi >= glist.len() {
+                        break;
+                    }
+                    let group = &glist[gi];
+                    let empty = vec![];
+                    let first = &lines[group[0]];
+                    let fix = first["fix"].as_array().unwrap_or(fixv);
+                    let h = first["h"].as_array().unwrap_or(&empty);
+                    // skip histories with a tainted prefix
+                    let mut skip = false;
+                    {
+                        let t = tainted.lock().unwrap();
+                        if !t.is_empty() {
+                            for k in 1..=h.len() {
+                                if t.contains(&Value::Array(h[..k].to_vec()).to_string()) {
+                                    skip = true;
+                                    break;
                                 }
                             }
                         }
-                        if skip {
-                            counts.lock().unwrap().2 += 1;
-                            continue;
+                    }
+                    if skip {
+                        counts.lock().unwrap().2 += group.len();
+                        continue;
+                    }
+                    let mut world: Option<World> = None;
+                    let mut pre = Value::Null;
+                    let mut local_ops: std::collections::BTreeMap<String, usize> = Default::default();
+                    let (mut n_match, mut n_mis, mut n_resmis) = (0usize, 0usize, 0usize);
+                    for li in group {
+                        let l = &lines[*li];
+                        if world.is_none() {
+                            let mut w = run_history(nm, fix, h, names, want_ser);
+                            if pre.is_null() {
+                                pre = w.observe(false);
+                                normalise(&mut pre);
+                            }
+                            world = Some(w);
                         }
+                        let w = world.as_mut().unwrap();
                         let mut rng = seed ^ (*li as u64).wrapping_mul(0x9E3779B97F4A7C15);
                         let sampled = splitmix(&mut rng) % (sample_every as u64) == 0;
-                        let mut w = run_history(nm, fix, h, names, want_ser);
-                        let pre_full = if sampled { Some(w.observe(true)) } else { None };
+                        let same = l["post"].get("same").is_some();
                         let res = w.exec(&l["a"]);
                         let mut post = w.observe(false);
                         normalise(&mut post);
-                        let mut exp = l["post"].clone();
-                        normalise(&mut exp);
+                        // "same": the specification says the step has no effect -- expected post-state = the pre-state
+                        let exp = if same { pre.clone() } else { let mut e = l["post"].clone(); normalise(&mut e); e };
                         let res_t = res["t"].as_str().unwrap_or("");
                         let same_res = res["t"] == l["res"]["t"] && (res_t == "panic" || res_t == "hang" || res["v"] == l["res"]["v"]);
                         let same_post = res_t == "hang" || post == exp;
-                        *opcount.lock().unwrap().entry(l["a"]["op"].as_str().unwrap_or("?").to_string()).or_default() += 1;
+                        *local_ops.entry(l["a"]["op"].as_str().unwrap_or("?").to_string()).or_default() += 1;
+                        if post != pre || w.poisoned {
+                            world = None; // the step had an effect: the next one starts from a fresh copy of the history
+                        }
                         if same_res && same_post {
-                            counts.lock().unwrap().0 += 1;
-                            if let Some(pre) = pre_full {
-                                if res_t != "hang" {
-                                    let post_full = w.observe(true);
-                                    samp.lock().unwrap().push(json!({"fix": fix, "h": h, "a": l["a"], "res": res, "pre": pre, "post": post_full}));
-                                }
+                            n_match += 1;
+                            if sampled {
+                                samp.lock().unwrap().push(json!({"fix": fix, "h": h, "a": l["a"]}));
                             }
                         } else {
-                            {
-                                let mut c = counts.lock().unwrap();
-                                c.1 += 1;
-                                if !same_res {
-                                    c.3 += 1;
-                                }
+                            n_mis += 1;
+                            if !same_res {
+                                n_resmis += 1;
                             }
                             let mut hh = h.clone();
                             hh.push(l["a"].clone());
                             newtaint.lock().unwrap().push(Value::Array(hh).to_string());
-                            // re-run to get full observations around the step
-                            let mut w2 = run_history(nm, fix, h, names, want_ser);
-                            let pre = w2.observe(true);
-                            let res2 = w2.exec(&l["a"]);
-                            let post2 = if w2.poisoned { pre.clone() } else { w2.observe(true) };
-                            mism.lock().unwrap().push(json!({"fix": fix, "h": h, "a": l["a"], "res": res2, "exp_res": l["res"],
-                                "pre": pre, "post": post2, "same_res": same_res, "same_post": same_post,
+                            mism.lock().unwrap().push(json!({"fix": fix, "h": h, "a": l["a"], "res": res, "exp_res": l["res"],
+                                "same_res": same_res, "same_post": same_post,
                                 "exp_post": exp, "got_post": post}));
                         }
+                    }
+                    {
+                        let mut c = counts.lock().unwrap();
+                        c.0 += n_match;
+                        c.1 += n_mis;
+                        c.3 += n_resmis;
+                    }
+                    let mut oc = opcount.lock().unwrap();
+                    for (k, v) in local_ops {
+                        *oc.entry(k).or_default() += v;
                     }
                 });
             }
@@ -149,10 +184,11 @@ pub fn replay(input: &str, outdir: &str, nm: usize, seed: u64, sample: usize, na
     let write_traces = |name: &str, items: &Vec<Value>| {
         let mut f = std::fs::File::create(format!("{outdir}/{name}")).unwrap();
         for it in items {
-            let reset = json!({"ev": {"op": "reset"}, "res": {"t": "ok", "v": 0}, "obs": it["pre"], "h": it["h"], "fix": it["fix"]});
-            let step = json!({"ev": it["a"], "res": it["res"], "obs": it["post"]});
-            writeln!(f, "{reset}").unwrap();
-            writeln!(f, "{step}").unwrap();
+            let empty = vec![];
+            let fix = it["fix"].as_array().unwrap_or(&empty);
+            let mut h = it["h"].as_array().unwrap_or(&empty).clone();
+            h.push(it["a"].clone());
+            write_history(&mut f, nm, fix, &h, &names, want_ser);
         }
     };
     let mism = mism.into_inner().unwrap();
@@ -170,4 +206,39 @@ pub fn replay(input: &str, outdir: &str, nm: usize, seed: u64, sample: usize, na
     let c = counts.into_inner().unwrap();
     json!({"transitions": total, "matched": c.0, "mismatched": c.1, "skipped_tainted": c.2, "res_mismatch": c.3,
            "sampled": samp.len(), "ops": opcount.into_inner().unwrap()})
+}
+
+/// execute fixture + history with a full observation after every step: one reset line, then one line per step
+pub fn write_history(f: &mut impl Write, nm: usize, fix: &[Value], h: &[Value], names: &[String], want_ser: bool) -> usize {
+    let mut w = run_history(nm, fix, &[], names, want_ser);
+    let reset = json!({"ev": {"op": "reset"}, "res": {"t": "ok", "v": 0}, "obs": w.observe(true), "h": h, "fix": fix});
+    writeln!(f, "{reset}").unwrap();
+    let mut n = 1;
+    for a in h {
+        let res = w.exec(a);
+        let obs = w.observe(true);
+        let step = json!({"ev": a, "res": res, "obs": obs});
+        writeln!(f, "{step}").unwrap();
+        n += 1;
+        if w.poisoned {
+            break;
+        }
+    }
+    n
+}
+
+/// `vh histories`: input ndjson lines {fix, h}; output: the concatenated full-observation traces
+pub fn histories(input: &str, output: &str, nm: usize, names: Vec<String>, want_ser: bool) -> Value {
+    let f = std::fs::File::open(input).expect("open input");
+    let mut out = std::fs::File::create(output).unwrap();
+    let mut nh = 0;
+    let mut steps = 0;
+    for l in std::io::BufReader::new(f).lines() {
+        let l = l.unwrap();
+        let Ok(v) = serde_json::from_str::<Value>(&l) else { continue };
+        let empty = vec![];
+        steps += write_history(&mut out, nm, v["fix"].as_array().unwrap_or(&empty), v["h"].as_array().unwrap_or(&empty), &names, want_ser);
+        nh += 1;
+    }
+    json!({"histories": nh, "lines": steps})
 }
